@@ -1357,3 +1357,68 @@ func R14TableReach(c *Ctx) {
 	}
 	c.R.Extra["R14-table-reach.tables"] = n
 }
+
+// R8PackerBuffer — the packer's buffer only grows by what is added to it.
+func R8PackerBuffer(c *Ctx) {
+	const rule = "R8-packer-buffer"
+	c.R.Rule(rule, "every store to Packer.data is append(p.data, …), the length-preserving XCryptBytesAES256(p.data, …), or a value of length zero (nil, make([]byte, 0, n), x[:0]): a buffer (re)initialised with a non-zero length starts every package with bytes nobody added", 2)
+	n := 0
+	for _, fn := range c.P.ModuleFuncs(NonYaotl) {
+		for _, b := range fn.Blocks {
+			for _, in := range b.Instrs {
+				st, ok := in.(*ssa.Store)
+				if !ok {
+					continue
+				}
+				t, f, base, ok := FieldOf(st.Addr)
+				if !ok || t != PkgPacker+".Packer" || f != "data" {
+					continue
+				}
+				n++
+				selfLoad := func(v ssa.Value) bool {
+					ld, ok := v.(*ssa.UnOp)
+					if !ok || ld.Op != token.MUL {
+						return false
+					}
+					t2, f2, b2, ok := FieldOf(ld.X)
+					return ok && t2 == t && f2 == f && AccessPath(b2) == AccessPath(base)
+				}
+				construct := "p.data = " + AccessPath(st.Val)
+				good := ""
+				switch x := st.Val.(type) {
+				case *ssa.Const:
+					if x.IsNil() {
+						good = "nil"
+					}
+				case *ssa.Call:
+					switch CalleeName(x) {
+					case "builtin.append":
+						if selfLoad(x.Call.Args[0]) {
+							good = "append onto itself"
+						}
+					case "Havoc/pkg/common/crypt.XCryptBytesAES256":
+						if selfLoad(x.Call.Args[0]) {
+							good = "stream cipher over itself (same length)"
+						}
+					}
+				case *ssa.MakeSlice:
+					if k, isC := ConstInt(x.Len); isC && k == 0 {
+						good = "empty make"
+					}
+				case *ssa.Slice:
+					if k, isC := ConstInt(x.High); x.High != nil && isC && k == 0 {
+						good = "re-sliced to length 0"
+					}
+				}
+				if good != "" {
+					c.R.Ok(rule, FuncShort(fn), construct, c.pos(st.Pos()), good, true)
+				} else {
+					c.R.Bad(rule, FuncShort(fn), construct, c.pos(st.Pos()), "the buffer is replaced by a value that is neither itself grown/encrypted nor provably empty: the next package starts with bytes that were never added (a relayed frame then begins with a bogus agent id and size)")
+				}
+			}
+		}
+	}
+	if n == 0 {
+		c.R.Anchor(rule, "stores to packer.Packer.data")
+	}
+}
